@@ -172,3 +172,4 @@ PROP = C14()
 
 PROP.rule += (" Strata added while closing seeded changes (DESIGN section 10): "
               'item-level API, index/mnemonic precedence, naming right after set_data, caller arrays shared between curves and LASFiles.')
+PROP.rule += ' Round 8: existing CurveItem objects moved (delete + append/insert/replace), numbering right after the move.'
